@@ -7,7 +7,11 @@
                                        layout, d_imp = None or Some, is accepted, well-formed, kept by PostPV, and its
                                        items without comments are value_items d   (depth budget 2)
        value_grammar_faithful_simple   build_value (decl_value lay d (gopt lay ga)) = m_value d   under wf_value_js d
-     TmRgb / TmFunc / TmCalc (stage 3) are NOT covered: wf_term is False for them.
+     Wider fragment (single-token terms + TmRgb), depth budget 3, separate names so that the statements above stay:
+       value_accepts_x / value_grammar_faithful_x  over wf_valuex / wf_valuex_js, value_itemsx, build_valuex
+       (find3 / next3 / seq_loop3 / cho_scan3: three-valued inner loop, so `find` on closed stacks is a vm_compute;
+        step_plain / step_sub / step_stop: one token of a sub-grammar; rgb_sub: the ColorValue run on rgb(r, g, b)).
+     TmFunc / TmCalc are NOT covered: wf_term / wf_termx are False for them.
      Stage 2 pieces: gap_off (G1), gap_on_until (G2), pv_gap_term (G3, incl. the SPend path), pv_tail (G4),
      pv_term_body / pv_op_body / pv_ws_body, pv_sep_term, pv_more, value_run, tspec_simple.
      Stage 1 pieces:
@@ -1415,3 +1419,468 @@ Proof.
   pose proof (okw_num_lex n [] H) as H0. rewrite app_nil_r in H0.
   split; [exact H0|]. split; [exact (okw_num_lex n u H)|]. split; [exact (okw_num_lex n (s "%") H)|]. split; exact Hd.
 Qed.
+
+
+(* ================================================================== three-valued nextProd / find: the inner loop of parse on a
+   token of known type with a list of facts about its value; sound w.r.t. seq_loop / cho_scan / next / find, so that
+   `find` on the closed stacks of the sub-grammars is a vm_compute *)
+Fixpoint seq_loop3 (fs : facts) (t : str) (k : nat) (ps : list ptree) (lo : nat) (hi : option nat) (i rnd : nat) (st : bool)
+  : option (nres * frame) :=
+  if below rnd hi then
+    match k with
+    | O => match hi with
+           | None => Some (NSpin, FSeq ps lo hi i rnd st)
+           | Some h => Some (NExh, FSeq ps lo hi 0 h false)
+           end
+    | S k' =>
+      match nth_error ps i with
+      | None => Some (NCrash, FSeq ps lo hi i rnd st)
+      | Some p =>
+        let st1 := if Nat.eqb i 0 then false else st in
+        let i' := if Nat.eqb (S i) (length ps) then 0 else S i in
+        let rnd' := if Nat.eqb (S i) (length ps) then S rnd else rnd in
+        match tm3 fs t p with
+        | None => None
+        | Some true => Some (ret p, FSeq ps lo hi i' rnd' true)
+        | Some false =>
+            if topt p then seq_loop3 fs t k' ps lo hi i' rnd' st1
+            else if Nat.ltb rnd lo || st1 then Some (NMissing, FSeq ps lo hi i' rnd' st1)
+            else Some (NNoMatch, FSeq ps lo hi i' rnd' st1)
+        end
+      end
+    end
+  else Some (NExh, FSeq ps lo hi i rnd st).
+
+Fixpoint cho_scan3 (fs : facts) (t : str) (ps : list ptree) (anyopt : bool) : option (option ptree * bool) :=
+  match ps with
+  | [] => Some (None, anyopt)
+  | c :: r => match tm3 fs t c with
+              | None => None
+              | Some true => Some (Some c, anyopt)
+              | Some false => cho_scan3 fs t r (anyopt || topt c)
+              end
+  end.
+
+Definition next3 (fs : facts) (t : str) (f : frame) : option (nres * frame) :=
+  match f with
+  | FSeq ps lo hi i rnd st =>
+      match ps with
+      | [] => if below rnd hi then Some (NCrash, f) else Some (NExh, f)
+      | _ => seq_loop3 fs t (length ps) ps lo hi i rnd st
+      end
+  | FCho ps o exh =>
+      if exh then Some (NExh, f)
+      else match cho_scan3 fs t ps false with
+           | None => None
+           | Some (Some c, _) => Some (ret c, FCho ps o true)
+           | Some (None, true) => Some (NNone, f)
+           | Some (None, false) => Some (NNoMatch, f)
+           end
+  end.
+
+Fixpoint find3 (fs : facts) (t : str) (fu : nat) (stack : list frame) : option fres :=
+  match fu with
+  | O => Some FSpin
+  | S fu' =>
+    match stack with
+    | [] => Some FCrash
+    | fr :: rest =>
+      match next3 fs t fr with
+      | None => None
+      | Some (NProd p, fr') => Some (FFound p (fr' :: rest))
+      | Some (NNest c, fr') => match enter c with
+                               | Some nf => find3 fs t fu' (nf :: fr' :: rest)
+                               | None => Some FCrash
+                               end
+      | Some (NNone, fr') | Some (NExh, fr') | Some (NNoMatch, fr') =>
+          match rest with [] => Some (FNoMatch [fr']) | _ => find3 fs t fu' rest end
+      | Some (NMissing, fr') | Some (NDone, fr') => Some (FParseErr (fr' :: rest))
+      | Some (NSpin, _) => Some FSpin
+      | Some (NCrash, _) => Some FCrash
+      end
+    end
+  end.
+
+Section Find3.
+  Variables (fs : facts) (tk : tok).
+  Hypothesis Hf : facts_ok fs (ty tk) (val tk).
+
+  Lemma seq_loop3_ok k ps lo hi : forall i rnd st r,
+    seq_loop3 fs (ty tk) k ps lo hi i rnd st = Some r -> seq_loop k ps lo hi i rnd st (Some tk) = r.
+  Proof.
+    induction k as [|k IH]; intros i rnd st r; cbn [seq_loop3 seq_loop]; destruct (below rnd hi).
+    - destruct hi; intros H; inversion H; reflexivity.
+    - intros H; inversion H; reflexivity.
+    - destruct (nth_error ps i) as [p|]; [|intros H; inversion H; reflexivity].
+      destruct (tm3 fs (ty tk) p) as [[|]|] eqn:E; [| |discriminate]; rewrite (tm3_ok fs tk Hf p _ E).
+      + intros H; inversion H; reflexivity.
+      + destruct (topt p); [apply IH|]. destruct (_ || _); intros H; inversion H; reflexivity.
+    - intros H; inversion H; reflexivity.
+  Qed.
+  Lemma cho_scan3_ok ps : forall a r, cho_scan3 fs (ty tk) ps a = Some r -> cho_scan ps (Some tk) a = r.
+  Proof.
+    induction ps as [|c ps IH]; intros a r; cbn [cho_scan3 cho_scan]; [intros H; inversion H; reflexivity|].
+    destruct (tm3 fs (ty tk) c) as [[|]|] eqn:E; [| |discriminate]; rewrite (tm3_ok fs tk Hf c _ E).
+    - intros H; inversion H; reflexivity.
+    - apply IH.
+  Qed.
+  Lemma next3_ok f r : next3 fs (ty tk) f = Some r -> next (Some tk) f = r.
+  Proof.
+    destruct f as [ps lo hi i rnd st|ps o exh]; cbn [next3 next].
+    - destruct ps as [|c ps]; [destruct (below rnd hi); intros H; inversion H; reflexivity|]. apply seq_loop3_ok.
+    - destruct exh; [intros H; inversion H; reflexivity|].
+      destruct (cho_scan3 fs (ty tk) ps false) as [[o1 b]|] eqn:E; [|discriminate]. rewrite (cho_scan3_ok _ _ _ E).
+      destruct o1; [|destruct b]; intros H; inversion H; reflexivity.
+  Qed.
+  Lemma find3_ok fu : forall stack r, find3 fs (ty tk) fu stack = Some r -> find fu stack tk = r.
+  Proof.
+    induction fu as [|fu IH]; intros stack r; cbn [find3 find]; [intros H; inversion H; reflexivity|].
+    destruct stack as [|fr rest]; [intros H; inversion H; reflexivity|].
+    destruct (next3 fs (ty tk) fr) as [[n fr']|] eqn:E; [|discriminate]. rewrite (next3_ok _ _ E).
+    destruct n; try (intros H; inversion H; reflexivity); try (destruct rest; [intros H; inversion H; reflexivity|apply IH]).
+    destruct (enter t); [apply IH|intros H; inversion H; reflexivity].
+  Qed.
+End Find3.
+
+
+Section Body3.
+  Variable o : opts.
+  Variable sub : nat -> bool -> tok -> list tok -> out.
+  Variable postof : nat -> option postcode.
+  Lemma body_find3 fs t st p stk' :
+    o_checkS o = false -> plain_ty (ty t) -> l_defaultS st && isS t = false -> facts_ok fs (ty t) (val t) ->
+    find3 fs (ty t) (find_fuel (l_stack st)) (l_stack st) = Some (FFound p stk') ->
+    body o sub postof t st =
+    process sub postof p t (set_found (set_started st) stk' (negb (p_mayend p)) (p_stopnm p || l_stopnm (set_started st))).
+  Proof. intros H1 H2 H3 Hf H4. rewrite body_find; [|assumption..]. rewrite (find3_ok fs t Hf _ _ _ H4). reflexivity. Qed.
+
+  Lemma finish_ok stk seq sto wf started dS stopnm afterS strict keep own anc rest sh wf' :
+    final stk strict wf = FinOk wf' -> seq <> [] ->
+    finish o (mkLs stk seq sto wf started false dS stopnm afterS strict keep own anc rest sh) =
+    Ret (mkRes wf' (rev (rstripS seq)) sto false keep own anc rest sh).
+  Proof.
+    intros Hf Hne. unfold finish. simpl_st. rewrite Hf. destruct seq; [congruence|]. rewrite andb_false_r. reflexivity.
+  Qed.
+End Body3.
+
+(* comments of a gap, in order *)
+Definition gcoms (g : list tok) : list item := map cmt (filter (fun t => negb (isS t)) g).
+Lemma rev_gitems g : forall q, rev (gitems g q) = rev q ++ gcoms g.
+Proof.
+  induction g as [|a g IH]; intros q; cbn [gitems]; [symmetry; apply app_nil_r|]. rewrite IH. unfold gcoms. cbn [filter].
+  destruct (isS a); cbn [negb map rev]; [reflexivity|]. rewrite <- app_assoc. reflexivity.
+Qed.
+
+(* dec n starts with a digit *)
+Lemma dec_digits_head f : forall n acc, exists c r, dec_digits (S f) n acc = c :: r /\ (48 <= c <= 57)%N.
+Proof.
+  induction f as [|f IH]; intros n acc; cbn [dec_digits];
+    assert (H : (N.modulo n 10 < 10)%N) by (apply N.mod_lt; discriminate); set (m := N.modulo n 10) in *.
+  - destruct (N.ltb n 10); eexists _, _; (split; [reflexivity|lia]).
+  - destruct (N.ltb n 10); [eexists _, _; split; [reflexivity|lia]|]. apply IH.
+Qed.
+Lemma dec_not_sign n : mem_s (dec n) [s "+"; s "-"] = false.
+Proof.
+  destruct (dec_digits_head 39 n []) as [c [r [E H]]]. unfold dec. rewrite E.
+  change (s "+") with [43%N]. change (s "-") with [45%N]. cbn [mem_s eqs].
+  assert (N.eqb c 43 = false) as -> by (apply N.eqb_neq; lia). assert (N.eqb c 45 = false) as -> by (apply N.eqb_neq; lia). reflexivity.
+Qed.
+
+
+(* ---- one token of a sub-grammar whose productions carry no nextSor / stopAndKeep / store (own = SOff throughout) *)
+Section SubSteps.
+  Variable sub : nat -> bool -> tok -> list tok -> out.
+  Variable postof : nat -> option postcode.
+  Notation RUN := (runs opts0 sub postof).
+  Definition Soff (stk : list frame) (seq : list item) (started dS strict : bool) (rest : list tok) : lstate :=
+    mkLs stk seq [] true started false dS false false strict None SOff false rest stash0.
+
+  Lemma step_plain fs t p stk stk' ty' v' seq started dS strict rest r :
+    facts_ok fs (ty t) (val t) -> plain_ty (ty t) -> isS t = false ->
+    find3 fs (ty t) (find_fuel stk) stk = Some (FFound p stk') ->
+    p_stopkeep p = false -> aplain (p_toseq p) t = Some (ty', v') -> p_store p = None -> p_stop p = false ->
+    p_nextsor p = false -> p_stopnm p = false ->
+    RUN (Soff stk' (IStr ty' v' :: seq) true true (negb (p_mayend p)) rest) r ->
+    RUN (Soff stk seq started dS strict (t :: rest)) r.
+  Proof.
+    intros Hf Hpl HS H3 F1 F2 F3 F4 F5 F6 H. eapply runs_cont; [reflexivity| |exact H].
+    unfold Soff. rewrite (body_find3 opts0 sub postof fs t _ p stk' eq_refl Hpl); [|cbn [l_defaultS]; rewrite HS; apply andb_false_r|exact Hf|exact H3].
+    simpl_st. rewrite (process_plain_cont _ _ p t _ ty' v' F1 F2 F3 F4 F5). rewrite F6. reflexivity.
+  Qed.
+
+  Lemma step_sub fs t ts p stk stk' lbl g seq started dS strict rest r r0 pc its :
+    facts_ok fs (ty t) (val t) -> plain_ty (ty t) -> isS t = false ->
+    find3 fs (ty t) (find_fuel stk) stk = Some (FFound p stk') ->
+    p_stopkeep p = false -> p_toseq p = ASub lbl g -> p_store p = None -> p_stop p = false ->
+    p_nextsor p = false -> p_stopnm p = false ->
+    sub g false t (ts ++ rest) = Ret r0 -> r_rest r0 = rest -> r_stash r0 = stash0 ->
+    postof g = Some pc -> post pc r0 = PRet true its [] ->
+    RUN (Soff stk' (IObj (match lbl with Some x => x | None => ty t end) g true its [] :: seq) true true (negb (p_mayend p)) rest) r ->
+    RUN (Soff stk seq started dS strict (t :: ts ++ rest)) r.
+  Proof.
+    intros Hf Hpl HS H3 F1 F2 F3 F4 F5 F6 Hs Hr Hst Hpc Hpost H. eapply runs_cont; [reflexivity| |exact H].
+    unfold Soff. rewrite (body_find3 opts0 sub postof fs t _ p stk' eq_refl Hpl); [|cbn [l_defaultS]; rewrite HS; apply andb_false_r|exact Hf|exact H3].
+    simpl_st. rewrite (process_sub sub postof p t lbl g _ _ _ _ _ _ _ _ _ _ _ _ _ _ r0 pc true its [] F1 F2 F3 F4 Hs Hpc Hpost).
+    rewrite F5, F6, Hr, Hst. reflexivity.
+  Qed.
+
+  Lemma step_stop fs t p stk stk' ty' v' seq started dS strict rest :
+    facts_ok fs (ty t) (val t) -> plain_ty (ty t) -> isS t = false ->
+    find3 fs (ty t) (find_fuel stk) stk = Some (FFound p stk') ->
+    p_stopkeep p = false -> aplain (p_toseq p) t = Some (ty', v') -> p_store p = None -> p_stop p = true ->
+    p_stopnm p = false -> final stk' (negb (p_mayend p)) true = FinOk true ->
+    RUN (Soff stk seq started dS strict (t :: rest))
+        (mkRes true (rev (rstripS (IStr ty' v' :: seq))) [] false None SOff false rest stash0).
+  Proof.
+    intros Hf Hpl HS H3 F1 F2 F3 F4 F6 Hfin. eapply runs_break; [reflexivity| |].
+    - unfold Soff. rewrite (body_find3 opts0 sub postof fs t _ p stk' eq_refl Hpl); [|cbn [l_defaultS]; rewrite HS; apply andb_false_r|exact Hf|exact H3].
+      simpl_st. rewrite (process_plain_stop _ _ p t _ ty' v' F1 F2 F3 F4). reflexivity.
+    - simpl_st. rewrite F6. apply finish_ok; [exact Hfin|discriminate].
+  Qed.
+End SubSteps.
+
+
+Lemma runs_spend o sub postof stk seq started dS strict t rest r :
+  runs o sub postof (Soff stk seq started dS strict (t :: rest)) r ->
+  runs o sub postof (mkLs stk seq [] true started false dS false false strict None (SPend t) false rest stash0) r.
+Proof.
+  intros [n Hn]. exists n. destruct n as [|n]; [discriminate Hn|]. rewrite loop_unfold in *. exact Hn.
+Qed.
+
+(* ================================================================== Stage 3: rgb(r, g, b) *)
+Definition nobj (x : N) : item := IObj (s "NUMBER") 6 true [IStr (s "NUMBER") (dec x)] [].
+Definition chi (c : string) : item := IStr (s "CHAR") (s c).
+Definition rgb_seq (lay : layout) (g0 : nat) (r : N) (g1 g2 : nat) (g : N) (g3 g4 : nat) (b : N) (g5 : nat) : list item :=
+  chi ")" :: gitems (gopt lay g5) (nobj b :: gitems (gopt lay g4) (chi "," :: gitems (gopt lay g3) (nobj g ::
+    gitems (gopt lay g2) (chi "," :: gitems (gopt lay g1) (nobj r :: gitems (gopt lay g0) [IStr (s "FUNCTION") (s "rgb(")]))))).
+
+Definition fn_facts : facts := [(MNormIn [s "rgb("; s "hsl("], true)].
+Definition num_facts : facts := [(MValIn [s "+"; s "-"], false)].
+Definition comma_facts : facts := [(MVal (s ","), true); (MValIn [s "+"; s "-"], false)].
+Definition close_facts : facts := [(MVal (s ")"), true); (MVal (s ","), false); (MValIn [s "+"; s "-"], false)].
+
+Ltac st_gap := unfold Soff; apply gap_off; [apply gopt_gap|].
+Ltac st_plain fs :=
+  eapply (step_plain _ _ fs);
+    [repeat constructor|repeat split; reflexivity|reflexivity|vm_compute; reflexivity|reflexivity|vm_compute; reflexivity
+    |reflexivity|reflexivity|reflexivity|reflexivity|].
+
+Lemma rgb_sub D lay g0 r g1 g2 g g3 g4 b g5 R :
+  exists res,
+    pparse_sub (S (S D)) env_real 5 false (Some (T "FUNCTION" (s "rgb(")))
+      (gopt lay g0 ++ T "NUMBER" (dec r) :: gopt lay g1 ++ ch "," :: gopt lay g2 ++ T "NUMBER" (dec g) :: gopt lay g3 ++
+       ch "," :: gopt lay g4 ++ T "NUMBER" (dec b) :: gopt lay g5 ++ ch ")" :: R) = Ret res /\
+    r_rest res = R /\ r_stash res = stash0 /\ r_wf res = true /\ r_items res = rev (rgb_seq lay g0 r g1 g2 g g3 g4 b g5).
+Proof.
+  eexists. split.
+  - rewrite (pparse_sub_S (S D) 5 _ false _ _ eq_refl).
+    eapply runs_parse; [apply subR_ok|reflexivity|]. apply runs_spend.
+    st_plain fn_facts. st_gap.
+    (eapply (step_sub _ _ num_facts (T "NUMBER" (dec r)) []);
+      [repeat constructor; apply dec_not_sign|repeat split; reflexivity|reflexivity|vm_compute; reflexivity
+      |reflexivity|reflexivity|reflexivity|reflexivity|reflexivity|reflexivity
+      |exact (leaf6_number D false (dec r) _)|reflexivity|reflexivity|reflexivity|reflexivity|]).
+    st_gap. st_plain comma_facts. st_gap.
+    eapply (step_sub _ _ num_facts (T "NUMBER" (dec g)) []);
+      [repeat constructor; apply dec_not_sign|repeat split; reflexivity|reflexivity|vm_compute; reflexivity
+      |reflexivity|reflexivity|reflexivity|reflexivity|reflexivity|reflexivity
+      |exact (leaf6_number D false (dec g) _)|reflexivity|reflexivity|reflexivity|reflexivity|].
+    st_gap. st_plain comma_facts. st_gap.
+    eapply (step_sub _ _ num_facts (T "NUMBER" (dec b)) []);
+      [repeat constructor; apply dec_not_sign|repeat split; reflexivity|reflexivity|vm_compute; reflexivity
+      |reflexivity|reflexivity|reflexivity|reflexivity|reflexivity|reflexivity
+      |exact (leaf6_number D false (dec b) _)|reflexivity|reflexivity|reflexivity|reflexivity|].
+    st_gap.
+    (eapply (step_stop _ _ close_facts);
+      [repeat constructor|repeat split; reflexivity|reflexivity|vm_compute; reflexivity|reflexivity|vm_compute; reflexivity
+      |reflexivity|reflexivity|reflexivity|vm_compute; reflexivity]).
+  - repeat split; reflexivity.
+Qed.
+
+
+Definition fitem : item := IStr (s "FUNCTION") (s "rgb(").
+Lemma rgb_fwd lay g0 r g1 g2 g g3 g4 b g5 :
+  rev (rgb_seq lay g0 r g1 g2 g g3 g4 b g5) =
+  fitem :: gcoms (gopt lay g0) ++ nobj r :: gcoms (gopt lay g1) ++ chi "," :: gcoms (gopt lay g2) ++ nobj g ::
+  gcoms (gopt lay g3) ++ chi "," :: gcoms (gopt lay g4) ++ nobj b :: gcoms (gopt lay g5) ++ [chi ")"].
+Proof.
+  unfold rgb_seq. cbn [rev]. repeat (rewrite rev_gitems; cbn [rev]). repeat (rewrite <- app_assoc; cbn [app]). reflexivity.
+Qed.
+Lemma cs_g g l : comp_sig (gcoms g ++ l) = comp_sig l.
+Proof. unfold comp_sig. rewrite flat_map_app. unfold gcoms. induction (filter _ g) as [|a q IH]; [reflexivity|exact IH]. Qed.
+Lemma cr_rgb lay g0 r g1 g2 g g3 g4 b g5 :
+  clean (rev (rgb_seq lay g0 r g1 g2 g g3 g4 b g5)) = [fitem; nobj r; chi ","; nobj g; chi ","; nobj b; chi ")"].
+Proof. change (clean (rev ?x)) with (cr x). unfold rgb_seq. repeat (rewrite cr_cons || rewrite cr_gitems). reflexivity. Qed.
+Lemma post_rgb res lay g0 r g1 g2 g g3 g4 b g5 :
+  r_wf res = true -> r_items res = rev (rgb_seq lay g0 r g1 g2 g g3 g4 b g5) ->
+  post PostColor res = PRet true (r_items res) [].
+Proof.
+  intros Hw Hi. unfold post. rewrite Hw, Hi, rgb_fwd. cbn [value_item find is_comment_item item_ty fitem negb].
+  change (eqs (s "FUNCTION") (s "CSSComment")) with false. cbn [negb]. change (eqs (s "FUNCTION") (s "FUNCTION")) with true. cbn iota.
+  assert (E : comp_sig (fitem :: gcoms (gopt lay g0) ++ nobj r :: gcoms (gopt lay g1) ++ chi "," :: gcoms (gopt lay g2) ++ nobj g ::
+                gcoms (gopt lay g3) ++ chi "," :: gcoms (gopt lay g4) ++ nobj b :: gcoms (gopt lay g5) ++ [chi ")"]) = [true; true; true]).
+  { change (comp_sig (fitem :: ?l)) with (comp_sig l). rewrite cs_g. change (comp_sig (nobj r :: ?l)) with (true :: comp_sig l).
+    rewrite cs_g. change (comp_sig (chi "," :: ?l)) with (comp_sig l). rewrite cs_g. change (comp_sig (nobj g :: ?l)) with (true :: comp_sig l).
+    rewrite cs_g. change (comp_sig (chi "," :: ?l)) with (comp_sig l). rewrite cs_g. change (comp_sig (nobj b :: ?l)) with (true :: comp_sig l).
+    rewrite cs_g. reflexivity. }
+  rewrite E. reflexivity.
+Qed.
+
+(* ---- the wider fragment: single-token terms + rgb() *)
+Definition tobjx (lay : layout) (t : term) : item :=
+  match t with
+  | TmRgb g0 r g1 g2 g g3 g4 b g5 => IObj (s "ColorValue") 5 true (rev (rgb_seq lay g0 r g1 g2 g g3 g4 b g5)) []
+  | _ => tobj t
+  end.
+Definition cobj (t : term) : item :=
+  match t with
+  | TmRgb _ r _ _ g _ _ b _ => IObj (s "ColorValue") 5 true [fitem; nobj r; chi ","; nobj g; chi ","; nobj b; chi ")"] []
+  | _ => tobj t
+  end.
+Definition wf_termx (t : term) : Prop := match t with TmRgb _ _ _ _ _ _ _ _ _ => True | _ => wf_term t end.
+Lemma clean_tobjx lay t : clean [tobjx lay t] = [cobj t].
+Proof.
+  destruct t; try exact (clean_tobj _). cbn [tobjx cobj clean drop_it]. rewrite clean_it_obj, cr_rgb. reflexivity.
+Qed.
+
+Definition rgb_head_facts : facts := (MNormIn [s "rgb("; s "rgba("; s "hsl("; s "hsla("], true) :: okv_facts.
+
+Lemma tspecx D lay t : wf_termx t -> tspec (S (S D)) lay (tobjx lay) t.
+Proof.
+  destruct t as [v|n|n u|n|gq b|gq b|d|g0 r g1 g2 g g3 g4 b g5| | |v]; intros H;
+    try exact (tspec_simple (S D) lay _ H); try contradiction.
+  unfold tspec. cbn [r_term tobjx]. eexists _, _, 0. split; [reflexivity|]. split.
+  - apply (head_of_class rgb_head_facts); [repeat split; reflexivity|reflexivity|reflexivity|repeat constructor
+                                          |vm_compute; reflexivity|vm_compute; reflexivity|vm_compute; reflexivity|lia].
+  - exists (s "ColorValue"), 5, (rev (rgb_seq lay g0 r g1 g2 g g3 g4 b g5)), PostColor.
+    split; [reflexivity|]. split; [reflexivity|]. split; [reflexivity|]. intros R.
+    destruct (rgb_sub D lay g0 r g1 g2 g g3 g4 b g5 R) as [res [Hr [H1 [H2 [H3 H4]]]]].
+    exists res. split; [|split; [exact H1|split; [exact H2|rewrite <- H4; exact (post_rgb res lay _ _ _ _ _ _ _ _ _ H3 H4)]]].
+    unfold subR. rewrite <- Hr. f_equal. repeat (rewrite <- app_assoc; cbn [app]). reflexivity.
+Qed.
+
+
+(* ---- the item-sequence lemmas of value_accepts, for an arbitrary object function *)
+Section SeqGen.
+  Variable lay : layout.
+  Variable tob : term -> item.
+  Hypothesis tob_notS : forall t, notS (tob t).
+  Hypothesis tob_ok : forall t, okit (tob t) /\ is_value_obj (tob t) = true.
+
+  Lemma cr_more_g more : forall q,
+    cr (more_seq lay tob more q) = cr q ++ flat_map (fun p => sep_items (fst p) ++ clean [tob (snd p)]) more.
+  Proof.
+    induction more as [|[sp t] more IH]; intros q; cbn [more_seq flat_map fst snd]; [symmetry; apply app_nil_r|].
+    rewrite IH, cr_cons, cr_sep, <- !app_assoc. reflexivity.
+  Qed.
+  Lemma more_head_g more : forall o q, notS o -> exists o' q', more_seq lay tob more (o :: q) = o' :: q' /\ notS o'.
+  Proof. induction more as [|[sp t] more IH]; intros o q Ho; cbn [more_seq]; [eauto|]. apply IH. apply tob_notS. Qed.
+  Lemma rstrip_value_g g2 first more gx :
+    rstripS (value_seq lay tob g2 first more gx) = value_seq lay tob g2 first more gx.
+  Proof.
+    unfold value_seq. destruct (more_head_g more (tob first) (gitems (gopt lay g2) []) (tob_notS first)) as [o [q [E H]]].
+    rewrite E. destruct (gitems_head (gopt lay gx) o q H) as [o' [q' [E' H']]]. rewrite E'. cbn [rstripS]. unfold notS in H'. rewrite H'. reflexivity.
+  Qed.
+  Lemma more_ok_g more : forall q, Forall okit q -> Forall okit (more_seq lay tob more q).
+  Proof.
+    induction more as [|[sp t] more IH]; intros q H; cbn [more_seq]; [exact H|]. apply IH. constructor; [apply tob_ok|apply sep_ok; exact H].
+  Qed.
+  Lemma more_in_g more x : forall q, In x q -> In x (more_seq lay tob more q).
+  Proof. induction more as [|[sp t] more IH]; intros q H; cbn [more_seq]; [exact H|]. apply IH. right. apply sep_in. exact H. Qed.
+  Lemma post_pv_value_g g2 first more gx r :
+    r_wf r = true -> r_items r = rev (value_seq lay tob g2 first more gx) -> post PostPV r = PRet true (r_items r) [].
+  Proof.
+    intros Hw Hi. unfold post. rewrite Hw, Hi. cbn [andb].
+    assert (H1 : existsb is_value_obj (rev (value_seq lay tob g2 first more gx)) = true).
+    { apply existsb_exists. exists (tob first). split; [|apply tob_ok]. apply -> in_rev.
+      unfold value_seq. apply gitems_in, more_in_g. left. reflexivity. }
+    assert (H2 : forallb obj_wf (rev (value_seq lay tob g2 first more gx)) = true).
+    { apply forallb_forall. intros x Hx. apply in_rev in Hx.
+      assert (Hall : Forall okit (value_seq lay tob g2 first more gx)).
+      { unfold value_seq. apply gitems_ok, more_ok_g. constructor; [apply tob_ok|apply gitems_ok; constructor]. }
+      rewrite Forall_forall in Hall. exact (Hall x Hx). }
+    rewrite H1, H2. reflexivity.
+  Qed.
+  Lemma cr_value_g d gx :
+    cr (value_seq lay tob (d_g2 d) (d_first d) (d_more d) gx) =
+    clean [tob (d_first d)] ++ flat_map (fun p => sep_items (fst p) ++ clean [tob (snd p)]) (d_more d).
+  Proof. unfold value_seq. rewrite cr_gitems, cr_more_g, cr_cons, cr_gitems. reflexivity. Qed.
+End SeqGen.
+
+Lemma tobjx_notS lay t : notS (tobjx lay t).
+Proof. destruct t; try exact (tobj_notS _). reflexivity. Qed.
+Lemma tobjx_ok lay t : okit (tobjx lay t) /\ is_value_obj (tobjx lay t) = true.
+Proof. destruct t; try exact (tobj_ok _). split; reflexivity. Qed.
+
+Lemma fm_clean lay more :
+  flat_map (fun p : sep * term => sep_items (fst p) ++ clean [tobjx lay (snd p)]) more =
+  flat_map (fun p : sep * term => sep_items (fst p) ++ [cobj (snd p)]) more.
+Proof. induction more as [|[sp t] more IH]; [reflexivity|]. cbn [flat_map fst snd]. rewrite clean_tobjx, IH. reflexivity. Qed.
+
+Definition value_itemsx (d : decl) : list item :=
+  cobj (d_first d) :: flat_map (fun p => sep_items (fst p) ++ [cobj (snd p)]) (d_more d).
+Definition wf_valuex (d : decl) : Prop := wf_termx (d_first d) /\ Forall (fun p => wf_termx (snd p)) (d_more d).
+
+(* value_accepts for single-token terms and rgb(); depth budget 3 = PropertyValue + ColorValue + DimensionValue *)
+Theorem value_accepts_x D lay d ga : wf_valuex d ->
+  exists r, pparse_env (S (S (S D))) env_real gid_PropertyValue (decl_value lay d (gopt lay ga)) = Ret r /\
+            r_wf r = true /\ post PostPV r = PRet true (r_items r) [] /\ clean (r_items r) = value_itemsx d.
+Proof.
+  intros [Hf Hm]. rewrite decl_value_shape. unfold r_value.
+  set (gx := match d_imp d with Some _ => d_g3 d | None => ga end).
+  destruct (value_run (S (S D)) lay (tobjx lay) (d_g2 d) (d_first d) (d_more d) gx (tspecx D lay _ Hf)) as [r [Hr [Hw Hi]]].
+  { eapply Forall_impl; [|exact Hm]. intros p Hp. apply tspecx. exact Hp. }
+  rewrite (rstrip_value_g lay (tobjx lay) (tobjx_notS lay)) in Hi. exists r. split; [exact Hr|]. split; [exact Hw|]. split.
+  - exact (post_pv_value_g lay (tobjx lay) (tobjx_ok lay) _ _ _ gx r Hw Hi).
+  - rewrite Hi. change (clean (rev ?x)) with (cr x). rewrite (cr_value_g lay (tobjx lay) d gx). unfold value_itemsx.
+    rewrite clean_tobjx, fm_clean. reflexivity.
+Qed.
+
+(* ---- the reader for the wider fragment *)
+Definition dval (v : str) : N := fold_left (fun a c => (10 * a + (c - 48))%N) v 0%N.     (* int(lexeme) *)
+Definition ndec (it : item) : option N :=     (* the integer value of an rgb() component *)
+  match it with IObj _ 6 _ [IStr _ v] _ => Some (dval v) | _ => None end.
+Definition js_of_itemx (it : item) : js :=
+  match it with
+  | IObj _ 5 _ [IStr _ _; a; _; b; _; c; _] _ =>
+      match ndec a, ndec b, ndec c with Some r, Some g, Some bb => m_color "FUNCTION" r g bb | _, _, _ => tag "UNSUPPORTED" [] end
+  | _ => js_of_item it
+  end.
+Definition build_valuex (toks : list tok) : js :=
+  match pparse_env 3 env_real gid_PropertyValue toks with
+  | Ret r => JL (map js_of_itemx (clean (r_items r)))
+  | _ => tag "rejected" []
+  end.
+
+Definition wf_termx_js (t : term) : Prop :=
+  match t with
+  | TmRgb _ r _ _ g _ _ b _ => dval (dec r) = r /\ dval (dec g) = g /\ dval (dec b) = b
+  | _ => wf_term_js t
+  end.
+Definition wf_valuex_js (d : decl) : Prop :=
+  wf_valuex d /\ wf_termx_js (d_first d) /\ Forall (fun p => wf_termx_js (snd p)) (d_more d).
+
+Lemma js_cobj t : wf_termx t -> wf_termx_js t -> js_of_itemx (cobj t) = m_term t.
+Proof.
+  destruct t as [v|n|n u|n|gq b|gq b|d|g0 r g1 g2 g g3 g4 b g5| | |v]; intros Hw Hj; try contradiction;
+    try (rewrite <- (js_tobj _ Hw Hj); cbn [cobj tobj]; try reflexivity).
+  - destruct (mem_s _ _); reflexivity.
+  - destruct Hj as [H1 [H2 H3]]. cbn [cobj js_of_itemx ndec nobj m_term]. rewrite H1, H2, H3. reflexivity.
+Qed.
+
+Theorem value_grammar_faithful_x lay d ga : wf_valuex_js d ->
+  build_valuex (decl_value lay d (gopt lay ga)) = m_value d.
+Proof.
+  intros [Hw [Jf Jm]]. destruct (value_accepts_x 0 lay d ga Hw) as [r [Hr [_ [_ Hc]]]].
+  unfold build_valuex. rewrite Hr, Hc. unfold value_itemsx, m_value. f_equal. destruct Hw as [Hf Hm].
+  cbn [map]. rewrite (js_cobj _ Hf Jf). f_equal.
+  revert Hm Jm. generalize (d_more d). intros more. induction more as [|[sp t] more IH]; intros Hm Jm; [reflexivity|].
+  inversion Hm as [|? ? Hw1 Hm']; inversion Jm as [|? ? Hj1 Jm']; subst. cbn [snd fst] in *.
+  cbn [flat_map fst snd]. rewrite !map_app, (IH Hm' Jm'). cbn [map]. rewrite (js_cobj _ Hw1 Hj1).
+  destruct sp; reflexivity.
+Qed.
+
+Definition ex_declx := mkDecl (s "x") 0 1 (TmRgb 0 255 2 3 0 5 6 17 8) [(SepSp 2, TmNum ex_num); (SepComma 3 4, TmRgb 1 1 1 2 2 2 3 3 3)] 11 None.
+Example ex_wf_valuex_js : wf_valuex_js ex_declx.
+Proof. split; [split; [exact I|repeat constructor; cbn [snd wf_termx wf_term]; try exact I; split; reflexivity]|]. split; [repeat split; reflexivity|].
+  repeat constructor; cbn [snd]; try reflexivity; vm_compute; lia. Qed.
